@@ -133,7 +133,7 @@ fn returns_inside(p: &Program, kind: &str) -> bool {
 /// deviations of the other families reach (a call stack or frame table that is capped, trimmed or
 /// mixed up only shows beyond some size).
 fn scale(w: &mut Worker) {
-    let sizes: Vec<u64> = w.tier.pick(vec![10, 70, 300], vec![10, 70, 300, 1000, 3000]);
+    let sizes: Vec<u64> = crate::util::with_thresholds(w.tier.pick(vec![10, 70, 300], vec![10, 70, 300, 1000, 3000]), w.tier.pick(1024, 16384));
     for &d in &sizes {
         // plain recursion: the result comes back through d returns
         let text = format!(
@@ -316,6 +316,31 @@ fn errors_inside_functions(w: &mut Worker) {
                     expect.push(("after_error", Some("reached".into())));
                 }
                 scale_case(w, &format!("error-inside-function {} {} failing {:?}", if scoped { "scoped" } else { "plain" }, form, failing), &text, &expect);
+                // the same one call further down: the function that is called (in whatever form) calls another
+                // one for its value, and the error happens in there; both return what they were going to
+                let text = format!(
+                    "{head_inner}\nmark = set in${{1}}\n{failing}\nreturn ${{mark}}\nend\n{head}\nv = inner ${{1}}\nresumed = set yes\nreturn t${{v}}\nend\nkeep = set mine\ngot = set \"\"\nlist = array a b\nseen = set \"\"\nfor it in ${{list}}\n{call}\n{check}\nseen = set \"${{seen}}${{it}}\"\nend\nrelease ${{list}}\nlast = set reached",
+                    head_inner = if scoped { "fn <scope> inner" } else { "fn inner" },
+                    head = head,
+                    failing = failing,
+                    call = call,
+                    check = check
+                );
+                let got2 = match form {
+                    "statement" => "",
+                    "assign" => "tinatinb",
+                    "if" | "elseif" => "yy",
+                    _ => "falsefalse",
+                };
+                let mut expect2: Vec<(&str, Option<String>)> = vec![("keep", Some("mine".into())), ("got", Some(got2.to_string())), ("seen", Some("ab".into())), ("last", Some("reached".into()))];
+                if scoped {
+                    expect2.push(("mark", None));
+                    expect2.push(("resumed", None));
+                } else {
+                    expect2.push(("mark", Some("inb".into())));
+                    expect2.push(("resumed", Some("yes".into())));
+                }
+                scale_case(w, &format!("error-inside-called-function {} {} failing {:?}", if scoped { "scoped" } else { "plain" }, form, failing), &text, &expect2);
             }
         }
     }
@@ -324,10 +349,13 @@ fn errors_inside_functions(w: &mut Worker) {
 pub fn worker(w: &mut Worker) {
     let tier = w.tier;
     w.set_case_limit_ms(20_000);
+    // a case of these families may kill the process (a runaway nested interpreter): pin it to the case
+    w.risky = true;
     scale(w);
     errors_inside_functions(w);
     recursion_through_blocks(w);
     recursion_in_loops(w);
+    w.risky = false;
     let rig = FlowRig::new();
     let (devs, horizon) = tier.pick((2usize, 8usize), (3usize, 10usize));
     let maxblocks = tier.pick(1usize, 2usize);
@@ -627,7 +655,7 @@ pub fn crash_sig(_case: &Value, kind: &str) -> String {
     kind.to_string()
 }
 
-pub const RULE: &str = "family 1: one function (plain and <scope>) whose body is every block forest with 0..B blocks (if/elseif/else, while, for-in) with nothing, `return r1` or a bare `return` planted at every position of the body (depth-first, inside every nesting), with and without a trailing `return r9`; main sets a global and a pre-existing output variable and calls the function in every sequence of 1..2 call forms and selected triples from {statement, `x = f p`, `x = f \"q r\" s`, condition position `if f p`}. family 2: two functions where the outer one calls the inner one (as assignment, statement, in condition position, from a for body) and the inner one returns from inside for / while-in-if or calls itself guarded by an answer (also from inside a for body), all scoped/plain combinations. family 3: 'find first' functions (a loop that returns from a later iteration) called two or three times in every form, explored with 4-5 deviations. Every answer sequence (truth values, array lengths) with bounded deviations; each execution compared with the tree-walking interpreter with call semantics (arguments as global variables 1..n, scoped save/restore, value-less end leaves the output variable undefined). Function-body emits show ${1} and a global ${g} so argument binding and scope isolation are observable. The two corners the property leaves open are masked. family 4: a <scope> function whose locals are named like the caller's output variable, global and a fresh name, ending by reaching its end / bare return / value (also from inside a taken branch), called in five sequences of forms from a caller that had no value in the output variable. Scale family: plain and <scope> recursion of depth 10/70/300 (thorough: 1000, 3000), a function called from a loop 10..300 times, a function that returns from inside its own for/in loop called 2x10..300 times, a scoped function called from a plain one called from a loop; results and the variables that must stay undefined are compared with values computed in Rust Recursion through blocks: a function calling itself from the then / else / elseif / second elseif branch, an if without else, a nested if, a while body, an if inside a for body - no return inside the branch, the body goes on behind the block - depth 0..4 (thorough 9), plain (shared trace) and scoped (trace in the returned values) Errors inside functions: 4 failing commands x plain / scoped x call as statement / for its value / if / elseif / not, inside a for body of two items: the body goes on, the value comes back, a scoped function gives the caller's variables back, the loop completes. Recursion in loops: a scoped function calling itself in both passes of a while / for-in / while inside for-in (value = the bracketed call tree, depth 0..3, thorough 6), and calling itself in condition position (if / not / elseif) from inside its own for-in loop, the inner invocation returning from inside its loop";
+pub const RULE: &str = "family 1: one function (plain and <scope>) whose body is every block forest with 0..B blocks (if/elseif/else, while, for-in) with nothing, `return r1` or a bare `return` planted at every position of the body (depth-first, inside every nesting), with and without a trailing `return r9`; main sets a global and a pre-existing output variable and calls the function in every sequence of 1..2 call forms and selected triples from {statement, `x = f p`, `x = f \"q r\" s`, condition position `if f p`}. family 2: two functions where the outer one calls the inner one (as assignment, statement, in condition position, from a for body) and the inner one returns from inside for / while-in-if or calls itself guarded by an answer (also from inside a for body), all scoped/plain combinations. family 3: 'find first' functions (a loop that returns from a later iteration) called two or three times in every form, explored with 4-5 deviations. Every answer sequence (truth values, array lengths) with bounded deviations; each execution compared with the tree-walking interpreter with call semantics (arguments as global variables 1..n, scoped save/restore, value-less end leaves the output variable undefined). Function-body emits show ${1} and a global ${g} so argument binding and scope isolation are observable. The two corners the property leaves open are masked. family 4: a <scope> function whose locals are named like the caller's output variable, global and a fresh name, ending by reaching its end / bare return / value (also from inside a taken branch), called in five sequences of forms from a caller that had no value in the output variable. Scale family: plain and <scope> recursion of depth 10/70/300 (thorough: 1000, 3000), a function called from a loop 10..300 times, a function that returns from inside its own for/in loop called 2x10..300 times, a scoped function called from a plain one called from a loop; results and the variables that must stay undefined are compared with values computed in Rust Recursion through blocks: a function calling itself from the then / else / elseif / second elseif branch, an if without else, a nested if, a while body, an if inside a for body - no return inside the branch, the body goes on behind the block - depth 0..4 (thorough 9), plain (shared trace) and scoped (trace in the returned values) Errors inside functions: 4 failing commands x plain / scoped x call as statement / for its value / if / elseif / not, inside a for body of two items: the body goes on, the value comes back, a scoped function gives the caller's variables back, the loop completes. Recursion in loops: a scoped function calling itself in both passes of a while / for-in / while inside for-in (value = the bracketed call tree, depth 0..3, thorough 6), and calling itself in condition position (if / not / elseif) from inside its own for-in loop, the inner invocation returning from inside its loop. Error inside a called function: the same with the error one call further down (the called function calls another one for its value). All fixed-case families run at the threshold sizes and as pinned cases";
 pub const ASSUMPTIONS: &[&str] = &["spelling of fn/return keywords rotates over their aliases and full names", "loop variables after their loop and handle names are masked in the final variables"];
 pub const EXHAUSTIVE: bool = true;
 pub const WALL_CAP_S: (u64, u64) = (55, 2700);
